@@ -37,6 +37,11 @@ def main():
     field = sys.argv[4] if len(sys.argv) > 4 else "text"
     case = json.load(open(replay))["case"]
     text = case[field]
+    # hex-encoded byte fields are reduced in units of one byte (two hex digits)
+    unit = 2 if field.endswith("_hex") else 1
+    if unit == 2:
+        text = [text[i:i + 2] for i in range(0, len(text), 2)]
+    join = (lambda t: "".join(t)) if unit == 2 else (lambda t: t)
     with tempfile.TemporaryDirectory(dir=os.path.join(ROOT, "harness", "target")) as tmp:
         assert fails(prop, case, prefix, tmp), "case does not reproduce with that signature prefix"
         n = 2
@@ -47,9 +52,9 @@ def main():
             while i < len(text):
                 cand = text[:i] + text[i + chunk:]
                 c2 = dict(case)
-                c2[field] = cand
+                c2[field] = join(cand)
                 try:
-                    cand.encode("utf-8")
+                    join(cand).encode("utf-8")
                 except UnicodeEncodeError:
                     i += chunk
                     continue
@@ -62,7 +67,7 @@ def main():
                 if chunk == 1:
                     break
                 n = min(len(text), n * 2)
-    case[field] = text
+    case[field] = join(text)
     print(json.dumps(case, ensure_ascii=False))
 
 
